@@ -31,20 +31,6 @@ Proof.
   - symmetry. apply beq_neq. intros H. apply bos_inj in H. apply String.eqb_neq in E. contradiction.
 Qed.
 
-Lemma pyslice_from_last {A} (l : list A) (n : nat) : (0 < n)%nat ->
-  pyslice_from l (- Z.of_nat n) = if Nat.leb (length l) n then l else skipn (length l - n) l.
-Proof.
-  intros Hn. unfold pyslice_from, norm_idx.
-  destruct (- Z.of_nat n <? 0) eqn:E0; [|lia].
-  destruct (Nat.leb_spec (length l) n) as [H|H].
-  - destruct (- Z.of_nat n + Z.of_nat (length l) <? 0) eqn:E1; [reflexivity|].
-    assert (length l = n) by lia. replace (- Z.of_nat n + Z.of_nat (length l)) with 0 by lia.
-    cbn [Z.ltb Z.compare]. destruct (Z.of_nat (length l) <? 0) eqn:E2; [lia|reflexivity].
-  - destruct (- Z.of_nat n + Z.of_nat (length l) <? 0) eqn:E1; [lia|].
-    destruct (Z.of_nat (length l) <? - Z.of_nat n + Z.of_nat (length l)) eqn:E2; [lia|].
-    f_equal. lia.
-Qed.
-
 Lemma last_n_bos n s : (0 < n)%nat -> bytes_of_string (last_n n s) = pyslice_from (bytes_of_string s) (- Z.of_nat n).
 Proof.
   intros Hn. rewrite pyslice_from_last by exact Hn. rewrite bos_length. unfold last_n.
@@ -63,7 +49,7 @@ Definition to_def (r : result gv) : result (list adef) :=
 
 Lemma catch_as_def (R : result gv) a b :
   to_def (g_catch (do t <- R; Ok (Tup [t; a; b])) EKey (Raise EUBXMessage)) = as_def R.
-Proof. destruct R as [[v|d|l|f p kw|n]|e]; try reflexivity. destruct e; reflexivity. Qed.
+Proof. destruct R as [[v|d|l|f p kw|n|x]|e]; try reflexivity. destruct e; reflexivity. Qed.
 
 Lemma catch_tab t s a b :
   to_def (g_catch (do x <- g_tab t (gstr s); Ok (Tup [x; a; b])) EKey (Raise EUBXMessage)) = tab t s.
